@@ -94,19 +94,30 @@ func (x *XferPipe) Reset() {
 }
 
 // Append appends transfer filter by id.
+// NOTE: if an error is returned, the transfer pipe is left unchanged.
 func (x *XferPipe) Append(filterID ...byte) error {
+	n := len(x.filters)
 	for _, id := range filterID {
 		filter, err := Get(id)
 		if err != nil {
+			x.filters = x.filters[:n]
 			return err
 		}
 		x.filters = append(x.filters, filter)
 	}
-	return x.check()
+	if err := x.check(); err != nil {
+		x.filters = x.filters[:n]
+		return err
+	}
+	return nil
 }
 
 // AppendFrom appends transfer filters from a *XferPipe.
+// NOTE: appends nothing if the length would be bigger than 255.
 func (x *XferPipe) AppendFrom(src *XferPipe) {
+	if x.Len()+src.Len() > math.MaxUint8 {
+		return
+	}
 	for _, filter := range src.filters {
 		x.filters = append(x.filters, filter)
 	}
